@@ -113,7 +113,7 @@ static void rt() {
 // into a loop of 2^60 iterations; the alarm turns such a hang into a dead
 // worker, which the driver reports as <case>:crash for the input.
 struct Watchdog {
-  Watchdog() { alarm(10); }
+  Watchdog() { alarm(30); }
   ~Watchdog() { alarm(0); }
 };
 
@@ -883,8 +883,8 @@ static void mark(const std::vector<Sym>& seq) {
 }
 
 static void seq_case(uint64_t idx, bool) {
-  Watchdog wd;
   rt();
+  Watchdog wd;
   SeqInput in = seq_decode(idx);
   size_t n    = in.seq.size();
   SendBuffer buf;
@@ -1077,8 +1077,8 @@ static const VarCombo& var_decode(uint64_t idx, SeqInput& in) {
 }
 
 static void var_case(uint64_t idx, bool) {
-  Watchdog wd;
   rt();
+  Watchdog wd;
   SeqInput in;
   const VarCombo& cb = var_decode(idx, in);
   VarCtx c;
@@ -1148,8 +1148,8 @@ static void fail_once(const std::string& key, const std::string& msg) {
 }
 
 static void sized_case(uint64_t idx, bool) {
-  Watchdog wd;
   rt();
+  Watchdog wd;
   int pad          = idx % NPAD;
   const Sym& s     = syms()[idx / NPAD];
   const TypeOps& t = types()[s.type];
@@ -1195,13 +1195,16 @@ static void entry_case(uint64_t idx, bool) {
 // E4 can only see whether an overload is *declared*.  Whether
 // gSerialize(buf, x) / gSized(x) can be *instantiated* is decided here by
 // running the compiler (the one and the flags vlib/build.py uses, syntax
-// only) on a four-line translation unit per type and entry point, against
+// only) on two four-line translation units per type, against
 // the tree named by $VERIF_REPO (default /repo, as in build.py).
-//   ISER  internal::gSerializeObj(buf, x)      DESER  gDeserialize(buf, x)
-//   SER   gSerialize(buf, x)                   SIZED  gSized(x)
-// Oracle: a type the header can write and read (ISER and DESER compile) can be
-// written and sized through the documented entry points (SER and SIZED
-// compile).  Types that fail ISER or DESER are unsupported, not defects.
+//   HDR  internal::gSerializeObj(buf, x) and gDeserialize(buf, x)
+//   PUB  gSerialize(buf, x) and gSized(x)
+// Oracle: a type the header can write and read (HDR compiles) can be written
+// and sized through the documented entry points (PUB compiles).  Types that
+// fail HDR are unsupported, not defects.
+// gSizedObj(std::pair) (Serialize.h:317) is declared before the string /
+// vector / PODResizeableArray / gdeque overloads it would have to call
+#define PAIR_FAMILY "std::pair<T1,T2>-with-string-or-container-member"
 struct Probe {
   const char* type;
   const char* family; // violation key component
@@ -1214,15 +1217,15 @@ static const Probe PROBES[] = {
      "galois::Pair<T1,T2>-with-non-memory-copyable-member"},
     {"std::pair<int,double>", "std::pair<scalar,scalar>"},
     {"std::pair<int,std::pair<int,double>>", "std::pair<scalar,pair>"},
-    {"std::pair<int,std::string>", "std::pair<T1,T2>-with-string-member"},
-    {"std::pair<std::string,int>", "std::pair<T1,T2>-with-string-member"},
-    {"std::pair<int,std::vector<int>>", "std::pair<T1,T2>-with-vector-member"},
+    {"std::pair<int,std::string>", PAIR_FAMILY},
+    {"std::pair<std::string,int>", PAIR_FAMILY},
+    {"std::pair<int,std::vector<int>>", PAIR_FAMILY},
     {"std::pair<std::string,std::vector<int>>",
-     "std::pair<T1,T2>-with-string-member"},
+     PAIR_FAMILY},
     {"std::pair<int,galois::PODResizeableArray<int>>",
-     "std::pair<T1,T2>-with-PODResizeableArray-member"},
+     PAIR_FAMILY},
     {"std::pair<int,galois::gdeque<int>>",
-     "std::pair<T1,T2>-with-gdeque-member"},
+     PAIR_FAMILY},
     {"std::pair<int,galois::DynamicBitSet>", "std::pair<scalar,DynamicBitSet>"},
     {"std::vector<std::pair<int,std::string>>", "std::vector<pair>"},
     {"std::vector<std::vector<std::string>>", "std::vector<vector>"},
@@ -1231,115 +1234,135 @@ static const Probe PROBES[] = {
     {"std::tuple<int,double>", "std::tuple"},               // read only
 };
 static const int NPROBES = sizeof PROBES / sizeof PROBES[0];
-static const char* MODES[4] = {"ISER", "DESER", "SER", "SIZED"};
-
-struct ProbeResult {
-  bool ok[4];
-  std::string err[4];
+// All probes are compiled on first use, 16 compilers at a time, two
+// translation units per type: HDR (the two header-level operations) and PUB
+// (the two documented entry points).
+struct ProbeTable {
+  bool env = false;            // the control compiled
+  bool hdr[64], pub[64];       // per probe
+  std::string hdr_err[64], pub_err[64];
 };
-static ProbeResult run_probe(const char* type, uint64_t tag) {
-  const char* repo = getenv("VERIF_REPO");
-  std::string R    = repo ? repo : "/repo";
-  std::string base = "/verif/build/tmp/c17-probe-" + std::to_string(getpid()) +
-                     "-" + std::to_string(tag);
-  {
-    FILE* f = fopen((base + ".cpp").c_str(), "w");
-    if (!f)
-      return ProbeResult{{false, false, false, false}, {"cannot write", "", "", ""}};
-    fprintf(f,
-            "#include \"galois/runtime/Serialize.h\"\n"
-            "using namespace galois::runtime;\nusing T = %s;\n"
-            "#ifdef ISER\nvoid f(SerializeBuffer& b, const T& x) { "
-            "internal::gSerializeObj(b, x); }\n#endif\n"
-            "#ifdef DESER\nvoid f(DeSerializeBuffer& b, T& x) { "
-            "gDeserialize(b, x); }\n#endif\n"
-            "#ifdef SER\nvoid f(SerializeBuffer& b, const T& x) { "
-            "gSerialize(b, x); }\n#endif\n"
-            "#ifdef SIZED\nsize_t f(const T& x) { return gSized(x); }\n#endif\n",
-            type);
+static std::string first_error(const std::string& path) {
+  std::string e;
+  FILE* f = fopen(path.c_str(), "r");
+  char line[600];
+  while (f && fgets(line, sizeof line, f))
+    if (strstr(line, "error")) {
+      e = line;
+      break;
+    }
+  if (f)
     fclose(f);
-  }
-  std::string src = base + ".cpp";
-  std::string inc[4] = {"-I/verif/build/gen/include",
-                        "-I" + R + "/libgalois/include",
-                        "-I" + R + "/libsupport/include",
-                        "-I" + R + "/libdist/include"};
-  pid_t pid[4];
-  for (int m = 0; m < 4; ++m) {
-    std::string def = std::string("-D") + MODES[m];
-    std::string out = base + "." + MODES[m] + ".err";
-    pid[m]          = fork();
-    if (pid[m] == 0) {
-      int fd = open(out.c_str(), O_WRONLY | O_CREAT | O_TRUNC, 0644);
-      if (fd >= 0) {
-        dup2(fd, 1);
-        dup2(fd, 2);
-        close(fd);
-      }
-      alarm(0);
-      execlp("g++", "g++", "-std=c++17", "-DGALOIS_USE_SCHED_SETAFFINITY",
-             "-DGALOIS_HAVE_PTHREAD", "-w", "-fsyntax-only", def.c_str(),
-             inc[0].c_str(), inc[1].c_str(), inc[2].c_str(), inc[3].c_str(),
-             src.c_str(), (char*)nullptr);
-      _exit(127);
+  for (auto& ch : e)
+    if (ch == '\n')
+      ch = ' ';
+  return e;
+}
+static const ProbeTable& probe_table() {
+  static const ProbeTable T = [] {
+    ProbeTable t;
+    const char* repo = getenv("VERIF_REPO");
+    std::string R    = repo ? repo : "/repo";
+    std::string base =
+        "/verif/build/tmp/c17-probe-" + std::to_string(getpid()) + "-";
+    std::string inc[4] = {"-I/verif/build/gen/include",
+                          "-I" + R + "/libgalois/include",
+                          "-I" + R + "/libsupport/include",
+                          "-I" + R + "/libdist/include"};
+    for (int i = 0; i < NPROBES; ++i) {
+      FILE* f = fopen((base + std::to_string(i) + ".cpp").c_str(), "w");
+      if (!f)
+        return t;
+      fprintf(f,
+              "#include \"galois/runtime/Serialize.h\"\n"
+              "using namespace galois::runtime;\nusing T = %s;\n"
+              "#ifdef HDR\n"
+              "void f(SerializeBuffer& b, const T& x) { "
+              "internal::gSerializeObj(b, x); }\n"
+              "void f(DeSerializeBuffer& b, T& x) { gDeserialize(b, x); }\n"
+              "#endif\n#ifdef PUB\n"
+              "void f(SerializeBuffer& b, const T& x) { gSerialize(b, x); }\n"
+              "size_t f(const T& x) { return gSized(x); }\n#endif\n",
+              PROBES[i].type);
+      fclose(f);
     }
-  }
-  ProbeResult r;
-  for (int m = 0; m < 4; ++m) {
-    int st = -1;
-    if (pid[m] > 0)
-      waitpid(pid[m], &st, 0);
-    r.ok[m]         = pid[m] > 0 && WIFEXITED(st) && WEXITSTATUS(st) == 0;
-    std::string out = base + "." + MODES[m] + ".err";
-    if (!r.ok[m]) {
-      FILE* f = fopen(out.c_str(), "r");
-      char line[500];
-      while (f && fgets(line, sizeof line, f))
-        if (strstr(line, "error")) {
-          r.err[m] = line;
-          break;
+    const int NJ = 2 * NPROBES;
+    std::vector<pid_t> pid(NJ, 0);
+    std::vector<int> status(NJ, -1);
+    int next = 0, running = 0, done = 0;
+    auto outp = [&](int j) {
+      return base + std::to_string(j / 2) + (j % 2 ? ".pub.err" : ".hdr.err");
+    };
+    while (done < NJ) {
+      while (running < 16 && next < NJ) {
+        int j           = next++;
+        std::string src = base + std::to_string(j / 2) + ".cpp";
+        std::string out = outp(j);
+        pid[j]          = fork();
+        if (pid[j] == 0) {
+          int fd = open(out.c_str(), O_WRONLY | O_CREAT | O_TRUNC, 0644);
+          if (fd >= 0) {
+            dup2(fd, 1);
+            dup2(fd, 2);
+            close(fd);
+          }
+          execlp("g++", "g++", "-std=c++17", "-DGALOIS_USE_SCHED_SETAFFINITY",
+                 "-DGALOIS_HAVE_PTHREAD", "-w", "-fsyntax-only",
+                 j % 2 ? "-DPUB" : "-DHDR", inc[0].c_str(), inc[1].c_str(),
+                 inc[2].c_str(), inc[3].c_str(), src.c_str(), (char*)nullptr);
+          _exit(127);
         }
-      if (f)
-        fclose(f);
-      if (pid[m] > 0 && WIFEXITED(st) && WEXITSTATUS(st) == 127)
-        r.err[m] = "cannot run g++";
+        if (pid[j] < 0) {
+          ++done;
+          continue;
+        }
+        ++running;
+      }
+      int st;
+      pid_t p = waitpid(-1, &st, 0);
+      if (p < 0)
+        break;
+      for (int j = 0; j < NJ; ++j)
+        if (pid[j] == p) {
+          status[j] = st;
+          --running;
+          ++done;
+        }
     }
-    unlink(out.c_str());
-  }
-  unlink(src.c_str());
-  return r;
+    for (int j = 0; j < NJ; ++j) {
+      bool ok = status[j] != -1 && WIFEXITED(status[j]) &&
+                WEXITSTATUS(status[j]) == 0;
+      std::string e = ok ? "" : first_error(outp(j));
+      (j % 2 ? t.pub : t.hdr)[j / 2]         = ok;
+      (j % 2 ? t.pub_err : t.hdr_err)[j / 2] = e;
+      unlink(outp(j).c_str());
+      if (j % 2)
+        unlink((base + std::to_string(j / 2) + ".cpp").c_str());
+    }
+    t.env = t.hdr[0] && t.pub[0]; // PROBES[0] is the control
+    if (!t.env)
+      fprintf(stderr,
+              "c17: compile probes unavailable (control does not compile: %s "
+              "%s) - the case is vacuous\n",
+              t.hdr_err[0].c_str(), t.pub_err[0].c_str());
+    return t;
+  }();
+  return T;
 }
 
 static void probe_case(uint64_t idx, bool) {
-  // environment check, once per process: the control must compile everywhere
-  static int env = -1;
-  if (env < 0) {
-    ProbeResult c = run_probe(PROBES[0].type, 1000);
-    env           = c.ok[0] && c.ok[1] && c.ok[2] && c.ok[3];
-    if (!env)
-      fprintf(stderr,
-              "c17: compile probes unavailable (control does not compile: "
-              "%s) - case is vacuous\n",
-              (c.err[0] + c.err[1] + c.err[2] + c.err[3]).c_str());
-  }
-  if (!env)
-    return;
+  const ProbeTable& t = probe_table();
+  if (!t.env)
+    return; // no compiler / no tree: cannot decide, say nothing
   const Probe& p = PROBES[idx];
-  ProbeResult r  = run_probe(p.type, idx);
-  sx::outcome(r.ok[0] + 2 * r.ok[1] + 4 * r.ok[2] + 8 * r.ok[3]);
-  if (r.ok[0] && r.ok[1])
+  sx::outcome(t.hdr[idx] + 2 * t.pub[idx]);
+  if (t.hdr[idx])
     sx::mark_nontrivial(); // the header can write and read the type
-  if (r.ok[0] && r.ok[1] && !(r.ok[2] && r.ok[3])) {
-    std::string e = r.ok[3] ? r.err[2] : r.err[3];
-    for (auto& ch : e)
-      if (ch == '\n')
-        ch = ' ';
+  if (t.hdr[idx] && !t.pub[idx])
     fail("gSerialize(" + std::string(p.family) + "):does-not-compile",
          "%s: internal::gSerializeObj(buf,x) and gDeserialize(buf,x) compile, "
-         "gSerialize(buf,x) %s, gSized(x) %s: %s",
-         p.type, r.ok[2] ? "compiles" : "DOES NOT COMPILE",
-         r.ok[3] ? "compiles" : "DOES NOT COMPILE", e.c_str());
-  }
+         "gSerialize(buf,x) / gSized(x) DO NOT: %s",
+         p.type, t.pub_err[idx].c_str());
 }
 
 // ---------------------------------------------------------------------------
@@ -1389,8 +1412,8 @@ static ReuseInput reuse_decode(uint64_t idx) {
   abort();
 }
 static void reuse_case(uint64_t idx, bool) {
-  Watchdog wd;
   rt();
+  Watchdog wd;
   ReuseInput in    = reuse_decode(idx);
   const TypeOps& t = types()[in.type];
   Sym snew{in.type, in.newv};
